@@ -65,6 +65,9 @@ func (e *Enc) callBuiltin(ci ssa.CallInstruction, c *ssa.CallCommon, b *ssa.Buil
 		return nil, nil
 	case "delete":
 		mt := c.Args[0].Type().Underlying().(*types.Map)
+		if types.IsInterface(mt.Key()) {
+			e.hashObligation(args[1], ci.Pos(), "map key")
+		}
 		dn := e.mapDomHeap(mt)
 		d := e.lookup(e.cur, dn, e.mapDomSort(mt))
 		e.set(e.cur, dn, Store(d, args[0], Store(Select(d, args[0]), args[1], TFalse)))
@@ -246,6 +249,14 @@ func (e *Enc) externalModNames(name string, c *ssa.CallCommon) map[string]string
 func (e *Enc) callExternal(ci ssa.CallInstruction, c *ssa.CallCommon, name string, args []Term) ([]Term, error) {
 	sig := c.Signature()
 	arg := func(i int) Term { return e.argTerm(c, args, i) }
+	// sync.Map hashes its key: a key whose dynamic type is not comparable panics at run time
+	switch name {
+	case "(*sync.Map).Load", "(*sync.Map).Store", "(*sync.Map).LoadOrStore", "(*sync.Map).LoadAndDelete", "(*sync.Map).Delete",
+		"(*sync.Map).Swap", "(*sync.Map).CompareAndSwap", "(*sync.Map).CompareAndDelete":
+		if len(args) > 1 && arg(1).Sort == SIface {
+			e.hashObligation(arg(1), ci.Pos(), "sync.Map key")
+		}
+	}
 	// atomic cells
 	if strings.HasPrefix(name, "(*sync/atomic.") {
 		lv := e.recvLV(c)
